@@ -66,6 +66,14 @@ def oneHotToSelfies (rows : List (List Int)) (vocab : VocabItos) : Py Str := do
   let labels ← rows.mapM indexOfOne
   labelToSelfies labels vocab
 
+/-- `encoding_to_selfies(encoding, vocab_itos, enc_type)`: the `enc_type` check comes first; a label
+    list is passed for `"label"`, a matrix for `"one_hot"` -/
+def encodingToSelfies (labels : List Int) (rows : List (List Int)) (vocab : VocabItos) (enc : EncType) : Py Str :=
+  match enc with
+  | .label => labelToSelfies labels vocab
+  | .oneHot => oneHotToSelfies rows vocab
+  | _ => .error .ValueError
+
 /-- `batch_selfies_to_flat_hot` -/
 def batchSelfiesToFlatHot (batch : List Str) (vocab : VocabStoi) (padToLen : Int) : Py (List (List Nat)) :=
   batch.mapM fun s => do
